@@ -1,0 +1,25 @@
+//go:build verif
+
+package alephium
+
+// Hooks for the runtime monitors in /verif (compiled only with -tags verif).
+
+import (
+	sdk "github.com/alephium/go-sdk"
+	"github.com/alephium/wormhole-fork/node/pkg/common"
+)
+
+// VerifEventToMessage is ToWormholeMessage followed by toMessagePublication: the conversion every
+// contract event goes through on its way to the signing pipeline.
+func VerifEventToMessage(fields []sdk.Val, txId string, header *sdk.BlockHeaderEntry) (*common.MessagePublication, error) {
+	msg, err := ToWormholeMessage(fields, txId)
+	if err != nil {
+		return nil, err
+	}
+	return msg.toMessagePublication(header), nil
+}
+
+// VerifParseAttestToken exposes parseAttestToken.
+func VerifParseAttestToken(payload []byte) (*TokenInfo, error) {
+	return parseAttestToken(payload)
+}
